@@ -27,10 +27,13 @@ EntitledCoco(sw, required) == IF sw = "coco" THEN {"mail"} \cap required ELSE {}
 EntitledSwamid(hasCat, sw) == (IF hasCat THEN {"givenName", "mail"} ELSE {}) \cup (IF sw = "re_eu" THEN {"givenName", "mail"} ELSE {})
 
 \* a1v1twice: the same value set as a1v1only, configured as two overlapping patterns that both match v1
-Policies == {"none", "names12", "a1v1only", "a1v1twice", "perSP_a1", "perSP_fallback_a2", "ec", "ec_names1", "ec_swamid", "ec_coco"}
+\* a1unanchored: givenName restricted by a pattern without anchors ("two") that occurs inside v2 ("val-two") but at the start
+\* of no value: the patterns are matched from the start of the value, so nothing of givenName is allowed
+Policies == {"none", "names12", "a1v1only", "a1v1twice", "a1unanchored", "perSP_a1", "perSP_fallback_a2", "ec", "ec_names1", "ec_swamid", "ec_coco"}
 \* attribute restrictions that apply to this SP: "none" or [attr -> allowed values] on the listed attributes
 RestrOf(p) == CASE p = "names12" -> [a \in {"givenName", "mail"} |-> AnyVal]
                 [] p \in {"a1v1only", "a1v1twice"} -> [a \in {"givenName", "mail"} |-> IF a = "givenName" THEN {"v1"} ELSE AnyVal]
+                [] p = "a1unanchored" -> [a \in {"givenName", "mail"} |-> IF a = "givenName" THEN {} ELSE AnyVal]
                 [] p = "perSP_a1" -> [a \in {"givenName"} |-> AnyVal]
                 [] p = "perSP_fallback_a2" -> [a \in {"mail"} |-> AnyVal]
                 [] p = "ec_names1" -> [a \in {"givenName"} |-> AnyVal]
@@ -58,10 +61,16 @@ Prev == {[served |-> FALSE, decl |-> "none", hasCat |-> FALSE]} \cup [served : {
 \* be held against a pattern is not thereby allowed.
 Scn == [ident : Identities, upper : BOOLEAN, policy : Policies, decl : Decls, hasCat : BOOLEAN, failOnMissing : BOOLEAN, prev : Prev,
         typed : BOOLEAN,
+        \* split: the application's identity holds givenName under two spellings of the name (givenName: the first value,
+        \* GivenName: the others).  It is one attribute: the bound on what is released is the bound on all its values.
+        split : BOOLEAN,
         \* swamid categories the provider declares besides; "rs_support": it declares research-and-scholarship under
         \* entity-category-*support* (what an IdP says about itself), which entitles to nothing
         swamidCat : {"none", "re_only", "re_eu", "rs_support", "coco"}]
-WellFormed(s) == /\ s.typed => ~s.prev.served /\ ~s.upper
+WellFormed(s) == /\ s.split => ~s.prev.served /\ ~s.upper /\ ~s.typed /\ s.swamidCat = "none" /\ s.ident["givenName"] = {"v1", "v2"}
+                                   /\ s.policy \in {"none", "names12", "a1v1only", "a1unanchored", "ec"}
+                 /\ s.policy = "a1unanchored" => ~s.prev.served /\ ~s.typed /\ s.swamidCat = "none"
+                 /\ s.typed => ~s.prev.served /\ ~s.upper
                  /\ s.swamidCat \in {"re_only", "re_eu"} => s.policy = "ec_swamid" /\ ~s.prev.served /\ ~s.typed /\ ~s.upper
                  /\ s.swamidCat = "rs_support" => s.policy \in {"ec", "ec_swamid", "ec_names1"} /\ ~s.prev.served /\ ~s.typed /\ ~s.upper /\ ~s.hasCat
                  /\ s.policy = "ec_swamid" => ~s.prev.served /\ ~s.typed
